@@ -315,3 +315,37 @@ pub(crate) fn stored_change(hash: ChangeHash, actor: crate::ActorId, seq: u64, d
         _phantom: std::marker::PhantomData,
     }
 }
+
+static BIG: [u8; 1 << 22] = [0; 1 << 22];
+
+fn ref_uleb_len(mut v: u64) -> usize {
+    let mut n = 1;
+    while v >= 128 {
+        v >>= 7;
+        n += 1;
+    }
+    n
+}
+
+/// Header::new for a chunk of ANY data length up to 4 MiB (every LEB128 width boundary up to 3 -> 4 bytes) (the data itself is never read: SHA-256 is
+/// stubbed): the header length it announces - what Document::new and Chunk::parse use as offsets -
+/// is 4 magic + 4 checksum + 1 type + the LEB128 length of the data length, and Header::write emits
+/// exactly that many bytes ending in that LEB128.
+#[kani::proof]
+#[kani::unwind(7)]
+#[kani::stub(crate::storage::chunk::hash, stub_hash)]
+fn chunk_header_new_any_data_len() {
+    let n: usize = kani::any();
+    kani::assume(n <= (1 << 22));
+    let h = Header::new(any_chunk_type(), &BIG[..n]);
+    assert!(h.data_len == n);
+    assert!(h.header_size == 9 + ref_uleb_len(n as u64));
+    assert!(h.len() == h.header_size);
+    assert!(h.data_bytes() == (h.header_size..h.header_size + n));
+    let mut out = Vec::new();
+    h.write(&mut out);
+    assert!(out.len() == h.header_size);
+    kani::cover!(n == (1 << 21));
+    kani::cover!(n == 0x3f_ffff);
+    std::mem::forget(out);
+}
